@@ -78,7 +78,7 @@ func hasCond(pp *lpath, sub string) bool {
 
 func checkC11(c *Check, p *Program) {
 	c.Technique = "wire-layout extraction (path-sensitive abstract interpretation with bit-provenance contents) of the cEMI encoders, bit-provenance evaluation of the decoders' field expressions and of the flag helpers over their whole domain, all compared with a hand-written table of the cEMI L_Data layout"
-	c.Explanation = "The oracle is a table transcribed from the cEMI specification (03_06_03 §4.1.5, 03_03_02), independent of the code: message code; additional-info length and bytes; control field 1 = FT(7) r(6) Rep(5) SB(4) Prio(3..2) Ack(1) Conf(0); control field 2 = AT(7) Hops(6..4) EFF(3..0); source hi/lo; destination hi/lo; length octet; TPCI/APCI octet = C/D(7) Num(6) Seq(5..2) APCI(3..2); next octet = APCI(1..0) in bits 7..6 and six data bits. Decided: (1) the encoders - cemi.Pack, LData.Pack, Info.Pack, AppData.Pack, ControlData.Pack - put exactly those bits at those offsets on every path (bit-provenance vectors over the value's fields); (2) the decoders - LData.Unpack's field order and widths, unpackTransportUnit's field expressions, the primitive big-endian readers - extract exactly those bits; (3) constants (control flags, message codes, APCI group codes) equal the table; (4) the helpers over their complete domain: Control1Prio, Control2Hops (clamped and unclamped path), ControlField2.Hops, the composition Hops(Control2Hops(h)) = h&7 on the unclamped path and 7 on the clamped one, IsGroupAddr = bit 7, IsGroupCommand accepts exactly 0..2. Remaining assumption: the table was transcribed correctly (it is printed in the evidence)."
+	c.Explanation = "The oracle is a table transcribed from the cEMI specification (03_06_03 §4.1.5, 03_03_02), independent of the code: message code; additional-info length and bytes; control field 1 = FT(7) r(6) Rep(5) SB(4) Prio(3..2) Ack(1) Conf(0); control field 2 = AT(7) Hops(6..4) EFF(3..0); source hi/lo; destination hi/lo; length octet; TPCI/APCI octet = C/D(7) Num(6) Seq(5..2) APCI(3..2); next octet = APCI(1..0) in bits 7..6 and six data bits. Decided: (1) the encoders - cemi.Pack, LData.Pack, Info.Pack, AppData.Pack, ControlData.Pack - put exactly those bits at those offsets on every path (bit-provenance vectors over the value's fields); (2) the decoders - LData.Unpack's field order and widths, unpackTransportUnit's field expressions, the primitive big-endian readers - extract exactly those bits; (3) constants (control flags, message codes, APCI group codes) equal the table; (4) the helpers over their complete domain: Control1Prio, Control2Hops (clamped and unclamped path), ControlField2.Hops, the composition Hops(Control2Hops(h)) = h&7 on the unclamped path and 7 on the clamped one, IsGroupAddr = bit 7, IsGroupCommand accepts exactly 0..2. Remaining assumption: the table was transcribed correctly (it is printed in the evidence). LData.Unpack determines every field: on every path to an exit that may report success each of the six fields of the frame is written."
 	c.Trusted = []string{"go/types, go/ssa", "kxcheck layout interpreter and bit-provenance engine", "the transcription of the cEMI tables in c11.go"}
 	c.NotDecided = []string{}
 	table := []string{
@@ -383,6 +383,43 @@ func checkC11Decode(c *Check, p *Program) {
 			}
 		})
 		c.Decide(okT, "C11.decode", "LData.Unpack transport unit follows the fixed fields", pos, "unpackTransportUnit(data[n:], &ldata.Data) with n the count of the fixed fields", "the transport unit is not decoded from the octet after the destination address")
+		// decoding determines every field: on every path to an exit that may report success, each of the six fields
+		// of the frame is written (stored, or handed to a decoder by address).  A path that leaves a field alone hands
+		// back what an earlier frame left in the value (a frame without additional info decoded into a reused value).
+		writes := func(in ssa.Instruction, name string) bool {
+			isF := func(v ssa.Value) bool {
+				fld := fieldOfAddr(stripPtrConv(v))
+				return fld != nil && fld.Name() == name
+			}
+			switch x := in.(type) {
+			case *ssa.Store:
+				return isF(x.Addr)
+			case *ssa.Call:
+				for _, a := range x.Common().Args {
+					if isF(a) {
+						return true
+					}
+				}
+				if items, _ := ifaceArgs(x, true); len(items) > 0 {
+					for _, it := range items {
+						if mi, ok := it.(*ssa.MakeInterface); ok && isF(mi.X) {
+							return true
+						}
+					}
+				}
+			}
+			return false
+		}
+		for _, r := range returnsOf(f) {
+			if len(r.Results) < 2 || !p.returnMayBeNil(r, 1) {
+				continue
+			}
+			for _, name := range []string{"Info", "Control1", "Control2", "Source", "Destination", "Data"} {
+				nm := name
+				min, _, okP := pathCountTo(f.Blocks[0], r.Block(), func(in ssa.Instruction) bool { return writes(in, nm) })
+				c.Decide(okP && min >= 1, "C11.decode", "LData.Unpack determines "+name+" on every successful path", p.InstrPos(r), "every path to this exit writes the field", "a path to this possibly-successful exit never writes "+name+": the decoded frame keeps what the value held before (the field of an earlier frame)")
+			}
+		}
 	}
 	// unpackTransportUnit field expressions
 	tu := p.Func("knx/cemi", "unpackTransportUnit")
